@@ -389,6 +389,56 @@ def opProps (hd : HD K P) (s : State K P) (sc : Scope) (acct : Nat) : State K P 
   | .error e => (s, .err e, [])
   | .ok (s, ai) => (s, .props ai.nextExt ai.nextInt ai.name (s.mem.watchOnly || ai.keyPriv.isNone), [])
 
+/-- `DeriveFromKeyPathCache`: the private key of child `b/i` of account `acct` (= `DerivationPath.InternalAccount`;
+    the `Account` field of the path plays no part), answered from memory only — the manager must be unlocked and the
+    account info already cached.  The LRU cache in front of the derivation is keyed by the whole path and is emptied by
+    `lock()`, so a hit returns what the derivation below returns; it is therefore not part of the state.
+    (An account without private key — imported xpub — is refused like `PrivKey()` refuses: `ErrWatchingOnly`.) -/
+def opDeriveCache (hd : HD K P) (s : State K P) (sc : Scope) (acct b i : Nat) : State K P × Res K × List Row :=
+  if s.mem.watchOnly then (s, .err .watchOnly, []) else
+  if s.mem.locked then (s, .err .locked, []) else
+  match getSM s sc with
+  | none => (s, .err .scopeNotFound, [])
+  | some sm =>
+    match alookup sm.acctInfo acct with
+    | none => (s, .err .notCached, [])
+    | some ai =>
+      match ai.keyPriv with
+      | none => (s, .err .watchOnly, [])
+      | some ak =>
+        match derive2 hd ak b i with
+        | none => (s, .err .keyChain, [])
+        | some k => (s, .key (.hd k), [])
+
+def setName : AcctRow K P → Nat → AcctRow K P
+  | .dflt pub priv ne ni _, n => .dflt pub priv ne ni n
+  | .wo pub fp ne ni _ schema ci, n => .wo pub fp ne ni n schema ci
+
+/-- the cached account info follows a rename (`acctInfo.acctName = name`) -/
+def renameCached (s : State K P) (sc : Scope) (acct name : Nat) : State K P :=
+  match getSM s sc with
+  | none => s
+  | some sm =>
+    match alookup sm.acctInfo acct with
+    | none => s
+    | some ai => putSM s sc { sm with acctInfo := aset sm.acctInfo acct { ai with name := name } }
+
+/-- `RenameAccount`: the account row is written again under the new name — same keys, same next indices and, for an
+    imported account, the same overriding address schema.  No lock / watch-only check. -/
+def opRename (s : State K P) (sc : Scope) (acct name : Nat) : State K P × Res K × List Row :=
+  if acct = importedAcct then (s, .err .invalidAcct, []) else
+  match getSD s sc with
+  | none => (s, .err .scopeNotFound, [])
+  | some sd =>
+    if nameTaken sd name then (s, .err .dupAcct, []) else
+    if name = 0 then (s, .err .invalidAcct, []) else
+    match alookup sd.accts acct with
+    | none => (s, .err .acctNotFound, [])
+    | some row =>
+      let row' := setName row name
+      (renameCached (putSD s sc { sd with accts := aset sd.accts acct row' }) sc acct name, .ok,
+        [acctRowPut sc acct row'])
+
 -- ---------------------------------------------------------------------------------------------------------
 
 def step (cfg : Cfg) (hd : HD K P) (s : State K P) (op : Op K P) : State K P × Res K × List Row :=
@@ -419,6 +469,8 @@ def step (cfg : Cfg) (hd : HD K P) (s : State K P) (op : Op K P) : State K P × 
     | .props sc a => opProps hd s sc a
     | .restart => opRestart s
     | .convertWO => opConvertWO cfg s
+    | .deriveCache sc a _ b i => opDeriveCache hd s sc a b i
+    | .rename sc a name => opRename s sc a name
 
 /-- run a history from the empty state, collecting every database row written -/
 def run (cfg : Cfg) (hd : HD K P) : List (Op K P) → State K P × List Row
